@@ -70,8 +70,8 @@ def behaviours(c, tree, max_arrivals=1, orphan_cap=99, libs=(1,), timeout=900, m
     return behs, len(trs), len(g.states)
 
 
-C05_KINDS = {"incoherent", "stateroot-not-best", "panic"}
-C07_KINDS = {"wrong-best", "diverges-from-spec", "state-differs-from-reference", "reference-rejects-main-chain", "panic"}
+C05_KINDS = {"incoherent", "stateroot-not-best", "panic", "node-exit"}
+C07_KINDS = {"wrong-best", "diverges-from-spec", "state-differs-from-reference", "reference-rejects-main-chain", "panic", "node-exit"}
 
 
 def replay(c, tree, behs, kinds, public=False, coinbase=False, reference=False, nshards=8, timeout=1500):
@@ -94,6 +94,22 @@ def replay(c, tree, behs, kinds, public=False, coinbase=False, reference=False, 
                 json.dump(raw, open(outs[i], "w"))
             except ValueError:
                 pass
+        if rc != 0 and not os.path.exists(outs[i]) and os.path.exists(outs[i] + ".progress"):
+            # the harness process died inside the chain service (a logger.Fatal exits the node): attribute it to the
+            # behaviour being replayed and confirm by running exactly that behaviour again
+            pr = json.load(open(outs[i] + ".progress"))
+            again = os.path.join(c.work, "cdb_again_%s_%d.json" % (tree, i))
+            rc2, out2 = vlib.go_test("./internal/verifnode/", "^TestVerifChainDB$",
+                                     env={"VERIF_IN": inpath, "VERIF_OUT": again, "VERIF_SEED": c.seed, "VERIF_ONLY": pr["behaviour"]}, timeout=300)
+            if rc2 != 0 and not os.path.exists(again) and os.path.exists(again + ".progress") and \
+                    json.load(open(again + ".progress"))["trail"] == pr["trail"]:
+                if "node-exit" in kinds:
+                    tail = [l for l in out2.splitlines() if '"level":"fatal"' in l or "panic" in l][-3:]
+                    c.violation({"kind": "node-exit"}, {"tree": TREES[tree], "behaviour": behs[pr["behaviour"]], "died_after": pr["trail"]},
+                                "the node process terminates while handling the last arrival of [%s] (valid=%s): %s" % (
+                                    pr["trail"], behs[pr["behaviour"]]["valid"], " | ".join(tail)[:600]))
+                continue
+            raise vlib.Infra("chaindb harness shard %d died and the death did not reproduce:\n%s" % (i, out[-2000:]))
         r = c.absorb_go(outs[i], out)
         if rc != 0 and not r.get("violations"):
             raise vlib.Infra("chaindb harness shard %d failed:\n%s" % (i, "\n".join(l for l in out.splitlines() if not l.startswith('{"level'))[-3000:]))
